@@ -1778,8 +1778,9 @@ class InTablePhase(Phase):
         self.parser.parseError("unexpected-start-tag-implies-table-voodoo", {"name": token["name"]})
         # Do the table magic!
         self.tree.insertFromTable = True
-        self.parser.phases["inBody"].processStartTag(token)
+        new_token = self.parser.phases["inBody"].processStartTag(token)
         self.tree.insertFromTable = False
+        return new_token
 
     def endTagTable(self, token):
         if self.tree.elementInScope("table", variant="table"):
